@@ -6,6 +6,7 @@
 // identical normalised observation (has_value, scalar-ness, shape, every element).
 //   Case key:  <operation>|<input-set index>|<kind id per argument>       kind ids: see c09_driver.hpp (0 dyn 1 ct 2 clipped 3 fixed
 //              4 bounded 5 rtuple 6 raw 7 clipped_arr; scalars: 0 run-time int 1 ct 2 clipped; flags: 0 bool 1 constant;
+//              8 clipped_tight (tuple of clipped_size_t with bound == value; units *_clt_*, which enumerate exactly the tuples containing it);
 //              array operands (part 3): 0 dyn 1 raw 2 nested_arr 3 fixed_ndarray 4 hybrid_ndarray 5 dynamic_ndarray 6..20 cast kinds
 //              cs_fb cs_hb cs_db fs_fb fs_hb fs_db hs_fb hs_hb hs_db ds_fb ds_hb ds_db ls_fb ls_hb ls_db; slices: see S_* in c09_driver.hpp)
 //   Tiers:     quick    = every combination with <= 1 deviation from all-dynamic + the UNIFORM combinations (all arguments of one
@@ -27,6 +28,13 @@
 //                idx_q_e            quick    -DC09_PART=1 -DC09_DEV=1 -DC09_CONSTEXPR -DC09_OPS=0x1c00000ULL
 //                view_q_a           quick    -DC09_PART=2 -DC09_DEV=1 -DC09_OPS=0x3ffULL
 //                view_q_b           quick    -DC09_PART=2 -DC09_DEV=1 -DC09_OPS=0x3fc00ULL
+//                idx_q_clt_a        quick    -DC09_PART=1 -DC09_DEV=1 -DC09_CLT -DC09_OPS=0xfULL
+//                idx_q_clt_b        quick    -DC09_PART=1 -DC09_DEV=1 -DC09_CLT -DC09_OPS=0x3f0ULL
+//                idx_q_clt_c        quick    -DC09_PART=1 -DC09_DEV=1 -DC09_CLT -DC09_OPS=0x1fc00ULL
+//                idx_q_clt_d        quick    -DC09_PART=1 -DC09_DEV=1 -DC09_CLT -DC09_OPS=0x3e0000ULL
+//                idx_q_clt_e        quick    -DC09_PART=1 -DC09_DEV=1 -DC09_CLT -DC09_OPS=0x1c00000ULL
+//                view_q_clt_a       quick    -DC09_PART=2 -DC09_DEV=1 -DC09_CLT -DC09_OPS=0x3ffULL
+//                view_q_clt_b       quick    -DC09_PART=2 -DC09_DEV=1 -DC09_CLT -DC09_OPS=0x3fc00ULL
 //                arr_q_a            quick    -DC09_PART=3 -DC09_DEV=1 -DC09_OPS=0x3ULL
 //                arr_q_b            quick    -DC09_PART=3 -DC09_DEV=1 -DC09_OPS=0x4ULL
 //                arr_q_c            quick    -DC09_PART=3 -DC09_DEV=1 -DC09_IMOD=2 -DC09_IREM=0 -DC09_OPS=0x8ULL
@@ -459,7 +467,8 @@ struct op_shape_take { OP_HEAD("shape_take") CX_ALL OP_TAG(ix::shape_take_t)
 struct op_shape_squeeze { OP_HEAD("shape_squeeze")
     // constant evaluation rejected (std::array indexed out of range): array of clipped, the same defect that throws at run time (family squeeze-clipped)
     template <size_t I, int K> static constexpr bool constexpr_ok() { return K != CLA; } OP_TAG(ix::shape_squeeze_t) NO_EXCLUSIONS
-    using inputs = tl< in<vals<2,1,3>>, in<vals<1,2>>, in<vals<2,3>>, in<vals<1,1,4,1>>, in<vals<5>>, in<vals<2,1>>, in<vals<1,3,1,2>> >;
+    using inputs = tl< in<vals<2,1,3>>, in<vals<1,2>>, in<vals<2,3>>, in<vals<1,1,4,1>>, in<vals<5>>, in<vals<2,1>>, in<vals<1,3,1,2>>,
+                       /* a 1 followed by two or more extents != 1 (seeded change m09b: the running offset of the tuple-result algorithm) */ in<vals<1,2,3>>, in<vals<2,1,3,4>>, in<vals<1,2,3,2>>, in<vals<1,1,2,3>> >;
     template <typename... A> static constexpr auto call(const A&... a) { return ix::shape_squeeze(a...); }
 };
 #define OP23 , op_shape_squeeze
